@@ -18,6 +18,7 @@ import (
 	"strconv"
 	"strings"
 	"sync"
+	"sync/atomic"
 	"time"
 )
 
@@ -196,6 +197,11 @@ func supervise(name string, e *Engine, inPath, outPath string, j int) {
 	if timeout == 0 {
 		timeout = 20 * time.Second
 	}
+	// a tree on which the code under test hangs or crashes on MANY cases must not turn a check into hours of
+	// waiting for timeouts: after maxBad such observations the remaining cases are not run (SKIPPED, dropped by
+	// the driver) — the observations made so far are already violations with replays
+	maxBad := int64(Atoi(os.Getenv("VERIF_MAX_BAD"), 24))
+	var bad64 atomic.Int64
 	for w := 0; w < j; w++ {
 		wg.Add(1)
 		go func() {
@@ -212,6 +218,10 @@ func supervise(name string, e *Engine, inPath, outPath string, j int) {
 					return
 				}
 				for i := a; i < b; i++ {
+					if bad64.Load() >= maxBad {
+						results[i] = lines[i] + " | SKIPPED"
+						continue
+					}
 					if c == nil || (e.Recycle > 0 && c.served >= e.Recycle) {
 						if c != nil {
 							c.stop()
@@ -224,6 +234,7 @@ func supervise(name string, e *Engine, inPath, outPath string, j int) {
 						c.kill()
 						c = nil
 						res = bad
+						bad64.Add(1)
 					}
 					results[i] = lines[i] + " | " + res
 				}
